@@ -328,7 +328,9 @@ func domainTableExits(fn *ssa.Function) map[*ssa.BasicBlock]map[string]bool {
 		}
 		hdr := l.Header
 		if x, _ := an.Cut(an.CutQuery{From: an.Point{Block: l.BodyFirst, Idx: 0}, Target: func(i ssa.Instruction) bool { return i == hdr.Instrs[0] },
-			AcceptEdge: func(b *ssa.BasicBlock, i int, a *an.Atom) bool { return a != nil && a.Op == "false" && a.LV == ssa.Value(cmp) }}); x != nil {
+			AcceptEdge: func(b *ssa.BasicBlock, i int, a *an.Atom) bool {
+				return a != nil && a.Op == "false" && a.LV == ssa.Value(cmp)
+			}}); x != nil {
 			continue
 		}
 		out[l.Header] = globals
